@@ -7,24 +7,25 @@ Open Scope N_scope.
 (* ---- request direction: createUpstreamRequest ---- *)
 
 (* End-to-end headers intact: for EVERY header map, client address and key that is neither in the
-   hop-by-hop table, nor named by the (first) Connection value, nor X-Forwarded-For, the value that
+   hop-by-hop table, nor named in any Connection line, nor X-Forwarded-For, the value that
    leaves createUpstreamRequest is the value that came in. *)
 Theorem C04_e2e_request_headers_preserved :
   forall h remote k,
   ~ In k gen_hop_headers ->
-  (forall tok, In tok (first_conn_tokens h) -> canon_key tok <> k) ->
+  (forall tok, In tok (all_conn_tokens h) -> canon_key tok <> k) ->
   k <> K_XFF ->
   hlookup (create_upstream_headers remote h) k = hlookup h k.
 Proof. exact e2e_preserved. Qed.
 Print Assumptions C04_e2e_request_headers_preserved.
 
-(* Hop-by-hop headers removed — the part that holds of the code: a header of the table whose FIRST
-   value is non-empty, and every header named in the FIRST Connection value, is absent upstream;
-   and nothing absent is invented. *)
-Theorem C04_hop_headers_removed_partial :
+(* Hop-by-hop headers removed, full clause: EVERY header of the hop-by-hop table (whatever its
+   values, an empty first value included) and every header named in ANY Connection line (all values
+   of the Connection header, all comma-separated tokens) is absent upstream; and nothing absent is
+   invented. (X-Forwarded-For is the one header the proxy writes itself: see C04_xff_appended.) *)
+Theorem C04_hop_headers_removed :
   forall h remote,
-  (forall k, In k gen_hop_headers -> hget h k <> [] -> hlookup (create_upstream_headers remote h) k = None) /\
-  (forall tok, In tok (first_conn_tokens h) -> canon_key tok <> K_XFF ->
+  (forall k, In k gen_hop_headers -> hlookup (create_upstream_headers remote h) k = None) /\
+  (forall tok, In tok (all_conn_tokens h) -> canon_key tok <> K_XFF ->
                hlookup (create_upstream_headers remote h) (canon_key tok) = None) /\
   (forall k, k <> K_XFF -> hlookup h k = None -> hlookup (create_upstream_headers remote h) k = None).
 Proof.
@@ -33,30 +34,35 @@ Proof.
   - intros tok. exact (conn_listed_removed h remote tok).
   - intros k. exact (absent_stays_absent h remote k).
 Qed.
-Print Assumptions C04_hop_headers_removed_partial.
+Print Assumptions C04_hop_headers_removed.
+
+(* The same in the terms of the executable spec (is_hop_for = RFC hop-by-hop list or named in any
+   Connection line of this very header map): no such header reaches the backend. *)
+Theorem C04_hop_headers_removed_spec :
+  forall h remote k, is_hop_for h k = true -> k <> K_XFF -> hlookup (create_upstream_headers remote h) k = None.
+Proof. exact is_hop_for_removed. Qed.
+Print Assumptions C04_hop_headers_removed_spec.
 
 Example C04_hop_headers_removed_nonvacuous :
   hlookup (create_upstream_headers (bs "192.0.2.7:4711"%string)
              [(bs "Keep-Alive"%string, [bs "timeout=5"%string]); (bs "Proxy-Authorization"%string, [bs "Basic abc"%string]);
               (K_CONNECTION, [bs "x-a, Keep-Alive"%string]); (bs "X-A"%string, [bs "v"%string]); (bs "X-B"%string, [bs "w"%string])])
           (bs "X-B"%string) = Some [bs "w"%string] /\
-  In (bs "Keep-Alive"%string) gen_hop_headers /\ In (bs "x-a"%string) (first_conn_tokens [(K_CONNECTION, [bs "x-a, Keep-Alive"%string])]).
+  In (bs "Keep-Alive"%string) gen_hop_headers /\ In (bs "x-a"%string) (all_conn_tokens [(K_CONNECTION, [bs "x-a, Keep-Alive"%string])]).
 Proof. vm_compute. tauto. Qed.
 
-(* ... and the full clause ("every hop-by-hop header, including any named in Connection") is FALSE of
-   the code: a hop-by-hop header whose first value is empty is forwarded with all its values
-   (known finding F-C04-2), and a header named in a second Connection line is forwarded (F-C04-1). *)
-Theorem C04_hop_headers_removed_refuted :
-  exists h remote k, In k gen_hop_headers /\ hlookup h k <> None /\
-                     hlookup (create_upstream_headers remote h) k = hlookup h k.
-Proof. exact hop_empty_first_value_refuted. Qed.
-Print Assumptions C04_hop_headers_removed_refuted.
+(* the witness of the former finding F-C04-1: a header named in a SECOND Connection line is removed *)
+Example C04_second_connection_line_nonvacuous :
+  In (bs "X-Secret"%string) (all_conn_tokens wit_h2) /\ hlookup wit_h2 (bs "X-Secret"%string) = Some [bs "v1"%string] /\
+  hlookup (create_upstream_headers (bs "192.0.2.7:4711"%string) wit_h2) (bs "X-Secret"%string) = None.
+Proof. exact second_connection_line_removed. Qed.
 
-Theorem C04_connection_listed_removed_refuted :
-  exists h remote tok, In tok (all_conn_tokens h) /\
-                       hlookup (create_upstream_headers remote h) (canon_key tok) = Some [bs "v1"%string].
-Proof. exact second_connection_line_refuted. Qed.
-Print Assumptions C04_connection_listed_removed_refuted.
+(* the witness of the former finding F-C04-2: a hop-by-hop header whose FIRST value is empty is removed *)
+Example C04_hop_empty_first_value_nonvacuous :
+  In (bs "Proxy-Authorization"%string) gen_hop_headers /\
+  hlookup wit_h1 (bs "Proxy-Authorization"%string) = Some [[]; bs "Basic abc"%string] /\
+  hlookup (create_upstream_headers (bs "192.0.2.7:4711"%string) wit_h1) (bs "Proxy-Authorization"%string) = None.
+Proof. exact hop_empty_first_value_removed. Qed.
 
 (* The hop-by-hop table regenerated from reverseproxy.go contains every RFC 7230 / RFC 2616 hop-by-hop
    header (and the de-facto ones): dropping an entry from hopHeaders breaks this obligation. *)
@@ -70,7 +76,7 @@ Print Assumptions C04_hop_table_covers_rfc.
 Theorem C04_xff_appended :
   forall h remote ip port,
   split_host_port remote = Some (ip, port) ->
-  (forall prior, (forall tok, In tok (first_conn_tokens h) -> canon_key tok <> K_XFF) ->
+  (forall prior, (forall tok, In tok (all_conn_tokens h) -> canon_key tok <> K_XFF) ->
                  hlookup h K_XFF = Some prior -> prior <> [] ->
                  hlookup (create_upstream_headers remote h) K_XFF = Some [join COMMA_SP (prior ++ [ip])]) /\
   (hlookup h K_XFF = None -> hlookup (create_upstream_headers remote h) K_XFF = Some [ip]).
@@ -109,11 +115,11 @@ Print Assumptions C04_path_rewrite_spec.
    transformed by exactly the operations of the rules that target this key, in table order —
    set = last configured value (skipped when its replacement is empty), + = append every non-empty
    replacement, - = delete, regex = rewrite the first value; every other header is untouched.
-   (Placeholders read the client's own header map: the situation when the map was copied, and
-   always for header_downstream.) *)
+   (h0 = r.Header, the client's own header map, which the placeholders read; the rules rewrite a
+   different map: the upstream request's own copy, or the backend response's headers.) *)
 Theorem C04_header_rules_exact :
   forall e h0 rules res h k,
-  hlookup (mutate_headers e (Some h0) rules res h) k =
+  hlookup (mutate_headers e h0 rules res h) k =
   fold_left vop_apply (vops_for (subst_of e h0) rules k ++ revops_for (subst_of e h0) res k) (hlookup h k).
 Proof. exact mutate_headers_lookup. Qed.
 Print Assumptions C04_header_rules_exact.
@@ -122,16 +128,16 @@ Theorem C04_header_rules_touch_nothing_else :
   forall e h0 rules res h k,
   (forall r, In r rules -> rule_target (fst r) <> k) ->
   (forall r, In r res -> canon_key (fst r) <> k) ->
-  hlookup (mutate_headers e (Some h0) rules res h) k = hlookup h k.
+  hlookup (mutate_headers e h0 rules res h) k = hlookup h k.
 Proof. exact mutate_headers_untouched. Qed.
 Print Assumptions C04_header_rules_touch_nothing_else.
 
-(* One attempt of the retry loop, first application: headers = (stripped headers + upstream
+(* One attempt of the retry loop started from state st: headers = (stripped headers + upstream
    credentials) transformed by exactly the header_upstream rules; path/query per the director;
    the request goes to the chosen upstream's host. *)
 Theorem C04_upstream_request_spec :
   forall c e h0 st t,
-  let o := snd (attempt c e h0 true st t) in
+  let o := snd (attempt c e h0 st t) in
   (forall k, hlookup (o_hdr o) k =
              fold_left vop_apply (vops_for (subst_of e h0) (c_up c) k ++ revops_for (subst_of e h0) (c_upre c) k)
                        (hlookup (auth_hdr t (s_hdr st)) k)) /\
@@ -141,38 +147,69 @@ Theorem C04_upstream_request_spec :
 Proof. exact attempt_spec. Qed.
 Print Assumptions C04_upstream_request_spec.
 
-(* ... but on a RETRY the same request object is rewritten again: base path and target query
-   prepended twice, +rules applied twice (known finding F-C04-4). *)
-Theorem C04_retry_rewrite_refuted :
-  exists c q t o1 o2, fst (run_request c q [t; t]) = [o1; o2] /\
-    u_path (o_url o1) = spec_path t (c_without c) (u_path (q_url q)) /\
-    u_path (o_url o2) = bs "/base/base/x"%string /\ u_query (o_url o2) = bs "tq=1&tq=1&a=b"%string /\
-    hlookup (o_hdr o1) (bs "X-A"%string) = Some [bs "lit"%string] /\
-    hlookup (o_hdr o2) (bs "X-A"%string) = Some [bs "lit"%string; bs "lit"%string].
-Proof. exact retry_rewrite_refuted. Qed.
-Print Assumptions C04_retry_rewrite_refuted.
+(* ... and with retries (try_duration set) EVERY attempt - the first and each retry, to whichever
+   upstream t the policy selects - is that rewrite applied exactly ONCE to the request the client
+   sent: base path, `without`, target query, upstream credentials and header rules are never
+   applied on top of a previous attempt's result. *)
+Theorem C04_retry_every_attempt_spec :
+  forall c q ts i t,
+  nth_error ts i = Some t ->
+  exists o, nth_error (fst (run_request c true q ts)) i = Some o /\
+    u_path (o_url o) = spec_path t (c_without c) (u_path (q_url q)) /\
+    u_query (o_url o) = spec_query t (u_query (q_url q)) /\
+    o_urlhost o = t_host t /\
+    (forall k, hlookup (o_hdr o) k =
+               fold_left vop_apply (vops_for (subst_of (env_of q) (q_hdr q)) (c_up c) k ++
+                                    revops_for (subst_of (env_of q) (q_hdr q)) (c_upre c) k)
+                         (hlookup (auth_hdr t (create_upstream_headers (q_remote q) (q_hdr q))) k)).
+Proof. exact retry_every_attempt_spec. Qed.
+Print Assumptions C04_retry_every_attempt_spec.
 
-(* ... and when no hop-by-hop header was removed the header map is NOT copied, so placeholders
-   read what the proxy itself wrote (known finding F-C04-5): the same rule yields different values
-   depending on whether the client happened to send `Connection: keep-alive`. *)
-Theorem C04_placeholder_alias_refuted :
-  exists c q q' t o o',
-    q_hdr q' = q_hdr q ++ [(K_CONNECTION, [bs "keep-alive"%string])] /\
-    fst (run_request c q [t]) = [o] /\ fst (run_request c q' [t]) = [o'] /\
-    hlookup (o_hdr o) (bs "X-New"%string) = Some [bs "1.1.1.1, 192.0.2.7"%string] /\
-    hlookup (o_hdr o') (bs "X-New"%string) = Some [bs "1.1.1.1"%string].
-Proof. exact placeholder_alias_refuted. Qed.
-Print Assumptions C04_placeholder_alias_refuted.
+(* the witness of the former finding F-C04-4: attempt 2 goes to /base/x?tq=1&a=b with ONE X-A value *)
+Example C04_retry_every_attempt_nonvacuous :
+  exists o1 o2, fst (run_request wit_c true wit_q [wit_t; wit_t]) = [o1; o2] /\
+    u_path (o_url o2) = bs "/base/x"%string /\ u_query (o_url o2) = bs "tq=1&a=b"%string /\
+    hlookup (o_hdr o2) (bs "X-A"%string) = Some [bs "lit"%string] /\ o2 = o1.
+Proof. exact retry_rewrite_once. Qed.
+
+(* The request the backend receives (first attempt, with or without retries), for EVERY configuration
+   and client request: the upstream request has its own header map, so the {>Header} placeholders of
+   the rules read what the CLIENT sent (q_hdr q) - never X-Forwarded-For as appended by the proxy,
+   the upstream's credentials or what another rule wrote - and the result is the stripped headers
+   (+ upstream credentials) transformed by exactly the configured operations. *)
+Theorem C04_placeholders_read_client_headers :
+  forall c retriable q t ts,
+  exists o os, fst (run_request c retriable q (t :: ts)) = o :: os /\
+    u_path (o_url o) = spec_path t (c_without c) (u_path (q_url q)) /\
+    u_query (o_url o) = spec_query t (u_query (q_url q)) /\
+    o_urlhost o = t_host t /\
+    (forall k, hlookup (o_hdr o) k =
+               fold_left vop_apply (vops_for (subst_of (env_of q) (q_hdr q)) (c_up c) k ++
+                                    revops_for (subst_of (env_of q) (q_hdr q)) (c_upre c) k)
+                         (hlookup (auth_hdr t (create_upstream_headers (q_remote q) (q_hdr q))) k)).
+Proof. exact first_attempt_spec. Qed.
+Print Assumptions C04_placeholders_read_client_headers.
+
+(* the witness of the former finding F-C04-5: `header_upstream X-New {>X-Forwarded-For}` yields the
+   client's value whether or not the client also sent `Connection: keep-alive` *)
+Example C04_placeholders_read_client_headers_nonvacuous :
+  exists o o',
+    fst (run_request wit_c5 false wit_q [wit_t]) = [o] /\ fst (run_request wit_c5 false wit_q' [wit_t]) = [o'] /\
+    hlookup (o_hdr o) (bs "X-New"%string) = Some [bs "1.1.1.1"%string] /\
+    hlookup (o_hdr o') (bs "X-New"%string) = Some [bs "1.1.1.1"%string] /\
+    hlookup (o_hdr o) K_XFF = Some [bs "1.1.1.1, 192.0.2.7"%string].
+Proof. exact placeholder_reads_client_headers. Qed.
 
 (* ---- response direction ---- *)
 
 (* Before the header_downstream rules run: every header of the hop-by-hop table and every header
-   named in the (first) Connection value is gone, every other backend header is unchanged. *)
-Theorem C04_response_headers_spec_partial :
+   named in ANY Connection line of the backend response (all values, all comma-separated tokens) is
+   gone, every other backend header is unchanged. *)
+Theorem C04_response_headers_spec :
   forall h,
   (forall k, In k gen_hop_headers -> hlookup (resp_strip h) k = None) /\
-  (forall tok, In tok (first_conn_tokens h) -> hlookup (resp_strip h) (canon_key tok) = None) /\
-  (forall k, ~ In k gen_hop_headers -> (forall tok, In tok (first_conn_tokens h) -> canon_key tok <> k) ->
+  (forall tok, In tok (all_conn_tokens h) -> hlookup (resp_strip h) (canon_key tok) = None) /\
+  (forall k, ~ In k gen_hop_headers -> (forall tok, In tok (all_conn_tokens h) -> canon_key tok <> k) ->
              hlookup (resp_strip h) k = hlookup h k).
 Proof.
   intros h. split; [|split].
@@ -180,12 +217,20 @@ Proof.
   - intros tok. exact (resp_conn_listed_removed h tok).
   - intros k. exact (resp_e2e_preserved h k).
 Qed.
-Print Assumptions C04_response_headers_spec_partial.
+Print Assumptions C04_response_headers_spec.
 
-Theorem C04_response_connection_listed_refuted :
-  exists h tok, In tok (all_conn_tokens h) /\ hlookup (resp_strip h) (canon_key tok) = Some [bs "v1"%string].
-Proof. exact response_second_connection_line_refuted. Qed.
-Print Assumptions C04_response_connection_listed_refuted.
+(* The same in the terms of the executable spec: no header that is hop-by-hop for this response
+   (RFC list, or named in any of its Connection lines) reaches the client side. *)
+Theorem C04_response_hop_headers_removed_spec :
+  forall h k, is_hop_for h k = true -> hlookup (resp_strip h) k = None.
+Proof. exact resp_is_hop_for_removed. Qed.
+Print Assumptions C04_response_hop_headers_removed_spec.
+
+(* the witness of the former finding F-C04-3: a response header named in a SECOND Connection line is removed *)
+Example C04_response_second_connection_line_nonvacuous :
+  In (bs "X-Secret"%string) (all_conn_tokens wit_h2) /\ hlookup wit_h2 (bs "X-Secret"%string) = Some [bs "v1"%string] /\
+  hlookup (resp_strip wit_h2) (bs "X-Secret"%string) = None.
+Proof. exact response_second_connection_line_removed. Qed.
 
 (* Status relayed unchanged; trailers: every trailer the backend sent (announced or not) is handed
    to the client side with its values, and nothing else is. *)
